@@ -237,7 +237,7 @@ theorem evalJsLit_constJs (s : Str) (hs : ∀ c ∈ s, c.toNat < 65536) :
 
 /-! ### Mac-Roman text has no character above U+FFFF -/
 
-theorem macRoman_table_small : Gen.Codecs.macRoman.toList.all (fun n => decide (n < 65536)) = true := by decide
+theorem macRoman_table_small : Gen.Codecs.macRoman.toList.all (fun n => decide (n < 65536)) = true := by decide +kernel
 
 theorem decodeByte_macRoman_small (b : UInt8) (c : Char) (h : decodeByte .macRoman b = some c) : c.toNat < 65536 := by
   unfold decodeByte at h
@@ -259,28 +259,78 @@ theorem decodeByte_macRoman_small (b : UInt8) (c : Char) (h : decodeByte .macRom
       simpa [Char.toNat, Char.ofNatAux] using hn
     · simp at h
 
-theorem decodeText_macRoman_small : ∀ (bs : Bytes) (s : Str), decodeText .macRoman bs = .ok s → ∀ c ∈ s, c.toNat < 65536 := by
-  intro bs
-  induction bs with
-  | nil => intro s h; simp [decodeText, pure, Except.pure] at h; subst h; simp
-  | cons b bs ih =>
+theorem mapM_all {α β : Type} {f : α → R β} {P : β → Prop} (hf : ∀ a b, f a = .ok b → P b) :
+    ∀ (l : List α) (s : List β), l.mapM f = .ok s → ∀ c ∈ s, P c := by
+  intro l
+  induction l with
+  | nil => intro s h; simp [pure, Except.pure] at h; subst h; simp
+  | cons a l ih =>
     intro s h
-    simp only [decodeText, List.mapM_cons, bind, Except.bind] at h ih
-    cases hb : decodeByte .macRoman b with
-    | none => rw [hb] at h; simp at h
-    | some ch =>
-      rw [hb] at h
+    rw [List.mapM_cons] at h
+    simp only [bind, Except.bind] at h
+    cases ha : f a with
+    | error e => rw [ha] at h; simp at h
+    | ok b =>
+      rw [ha] at h
       simp only at h
-      cases hr : List.mapM (fun b => match decodeByte Codec.macRoman b with | some ch => Except.ok ch | none => Except.error Err.unicode) bs with
-      | error e => rw [hr] at h; simp at h
+      generalize hr : l.mapM f = r at h
+      cases r with
+      | error e => simp at h
       | ok r =>
-        rw [hr] at h
         simp only [pure, Except.pure, Except.ok.injEq] at h
         subst h
         intro c hc
         simp only [List.mem_cons] at hc
         rcases hc with rfl | hc
-        · exact decodeByte_macRoman_small b _ hb
+        · exact hf a _ ha
         · exact ih r hr c hc
+
+theorem decodeText_macRoman_small (bs : Bytes) (s : Str) (h : decodeText .macRoman bs = .ok s) : ∀ c ∈ s, c.toNat < 65536 := by
+  simp only [decodeText] at h
+  refine mapM_all (P := fun c => c.toNat < 65536) ?_ bs s h
+  intro b c hb
+  split at hb
+  · rename_i ch hd; cases hb; exact decodeByte_macRoman_small b _ hd
+  · cases hb
+
+/-! ### integer constants are rendered as they are stored -/
+
+theorem predefined_keys_quoted : ∀ kv ∈ predefinedConstants, kv.1.head? = some '"' := by decide
+
+theorem lookup_none_of_head {l : List (Str × Str)} (h : ∀ kv ∈ l, kv.1.head? = some '"') (s : Str) (hs : s.head? ≠ some '"') :
+    l.lookup s = none := by
+  induction l with
+  | nil => rfl
+  | cons x xs ih =>
+    obtain ⟨k, v⟩ := x
+    have hk : k.head? = some '"' := h (k, v) (by simp)
+    have hne : (s == k) = false := by
+      apply beq_false_of_ne
+      intro e; subst e; exact hs hk
+    simp only [List.lookup, hne]
+    exact ih (fun kv hkv => h kv (by simp [hkv]))
+
+theorem intStr_head (i : Int) : (intStr i).head? ≠ some '"' := by
+  cases i with
+  | ofNat n =>
+    obtain ⟨c, rest, he, _, _, hq⟩ := natStr_head n
+    simp only [intStr, he, List.head?_cons, ne_eq, Option.some.injEq]
+    exact hq
+  | negSucc n => simp [intStr]
+
+theorem startsWith_quote_false (s : Str) (h : s.head? ≠ some '"') : startsWith s ['"'] = false := by
+  cases s with
+  | nil => rfl
+  | cons c cs =>
+    simp only [List.head?_cons, ne_eq, Option.some.injEq] at h
+    simp [startsWith, List.isPrefixOf]; exact fun e => h e.symm
+
+theorem constLingo_intStr (i : Int) : constLingo (.s (intStr i)) = .s (intStr i) := by
+  simp only [constLingo, lookup_none_of_head predefined_keys_quoted _ (intStr_head i), startsWith_quote_false _ (intStr_head i)]
+  simp
+
+theorem constJs_intStr (i : Int) : constJs (.s (intStr i)) = .s (intStr i) := by
+  simp only [constJs, startsWith_quote_false _ (intStr_head i)]
+  simp
 
 end Drx.Lscr
